@@ -356,10 +356,7 @@ static const char *shape_class(const struct tcase *tc, int c) {
     if (ext_s) return "following-sibling-name-extends";
     if (same_s) return "following-sibling-same-name";
     if (kids) return "element-with-children";
-    if (tc->nattr[c] && body_start[c] == body_end[c]) return "empty-leaf-with-attributes";
-    if (tc->nattr[c]) return "leaf-with-attributes";
-    if (body_start[c] == body_end[c]) return "empty-leaf";
-    return "text-leaf";
+    return "leaf";
 }
 static const char *step_name(int action) {
     return action == A_DESCEND ? "descend" : action == A_ABORT ? "abort" : "closing-tag-search";
@@ -383,11 +380,15 @@ static void describe(const struct tcase *tc, int rc, int err) {
     }
 }
 static int n_viol_case;
-static void report(const struct tcase *tc, const char *clause, int culprit_entry, int rc, int err, const char *detail) {
+/* cls: explicit witness class for clauses that do not depend on the tree shape (attributes, abort, limits);
+ * NULL = derive <step>:<shape class> from the element whose processing positioned the cursor */
+static void report_c(const struct tcase *tc, const char *clause, const char *cls, int culprit_entry, int rc, int err, const char *detail) {
     char sig[300];
     if (n_viol_case++) return; /* one report per case: the first divergence */
     if (culprit_entry >= E_n) culprit_entry = E_n - 1;
-    if (culprit_entry >= 0) {
+    if (cls) {
+        snprintf(sig, sizeof(sig), "xml/%s:%s", clause, cls);
+    } else if (culprit_entry >= 0) {
         int c = E[culprit_entry].node;
         snprintf(sig, sizeof(sig), "xml/%s:%s:%s", clause, step_name(tc->act[c]), shape_class(tc, c));
     } else {
@@ -408,6 +409,10 @@ static void report(const struct tcase *tc, const char *clause, int culprit_entry
         MSG[0] = 0;
     }
     v_viol(sig, "%s :: %s", detail, MSG);
+}
+
+static void report(const struct tcase *tc, const char *clause, int culprit_entry, int rc, int err, const char *detail) {
+    report_c(tc, clause, NULL, culprit_entry, rc, err, detail);
 }
 
 static int cur_eq(struct aws_byte_cursor c, const char *s, size_t n) {
@@ -512,7 +517,7 @@ static void run_case(const struct tcase *tc, int want_sample) {
         }
         if (o->nattr != (size_t)tc->nattr[v]) {
             snprintf(det, sizeof(det), "callback %d: %zu attributes reported, element has %d", k, o->nattr, tc->nattr[v]);
-            report(tc, "attr-count", k, rc, err, det);
+            report_c(tc, "attr-count", o->nattr < (size_t)tc->nattr[v] ? (tc->nattr[v] == 1 ? "only-attribute-lost" : "fewer-than-declared") : "more-than-declared", k, rc, err, det);
             break;
         }
         for (int j = 0; j < tc->nattr[v] && j < MAXATTR; ++j) {
@@ -521,13 +526,13 @@ static void run_case(const struct tcase *tc, int want_sample) {
             if (!cur_eq(o->attr[j].name, an, strlen(an))) {
                 snprintf(det, sizeof(det), "callback %d attribute %d: name '%s', written as '%s' (%s)", k, j,
                          v_show(o->attr[j].name.ptr, o->attr[j].name.len > 30 ? 30 : o->attr[j].name.len), an, ((v + j) & 1) ? "quoted" : "unquoted");
-                report(tc, "attr-name", k, rc, err, det);
+                report_c(tc, "attr-name", ((v + j) & 1) ? "quoted-value" : "unquoted-value", k, rc, err, det);
                 break;
             }
             if (!cur_eq(o->attr[j].value, av, strlen(av))) {
                 snprintf(det, sizeof(det), "callback %d attribute %d: value '%s', written as '%s' (%s)", k, j,
                          v_show(o->attr[j].value.ptr, o->attr[j].value.len > 30 ? 30 : o->attr[j].value.len), av, ((v + j) & 1) ? "quoted" : "unquoted");
-                report(tc, (v + j) & 1 ? "attr-value-quoted" : "attr-value", k, rc, err, det);
+                report_c(tc, "attr-value", ((v + j) & 1) ? "quoted-value" : "unquoted-value", k, rc, err, det);
                 break;
             }
         }
@@ -552,7 +557,9 @@ static void run_case(const struct tcase *tc, int want_sample) {
     if (!n_viol_case && ref_loose_from < 0 && L_n > E_n) {
         snprintf(det, sizeof(det), "%d callbacks, the program reaches %d elements; extra callback for '%s' at depth %d", L_n, E_n,
                  v_show(L[E_n].name.ptr, L[E_n].name.len > 30 ? 30 : L[E_n].name.len), L[E_n].level);
-        report(tc, ref_outcome == O_ABORT ? "callback-after-abort" : ref_outcome == O_OK ? "extra-element" : "callback-after-limit", E_n - 1, rc, err, det);
+        if (ref_outcome == O_ABORT) report_c(tc, "callback-after-abort", E_n == 1 ? "root-callback" : "nested-callback", E_n - 1, rc, err, det);
+        else if (ref_outcome == O_OK) report(tc, "extra-element", E_n - 1, rc, err, det);
+        else report_c(tc, "callback-after-limit", ref_reason, E_n - 1, rc, err, det);
     }
     if (!n_viol_case) {
         int last = L_n - 1; /* the element whose processing was under way when the parse ended */
@@ -573,10 +580,10 @@ static void run_case(const struct tcase *tc, int want_sample) {
                     report(tc, rc ? "spurious-reject" : "missing-element", last, rc, err, det);
                 } else if (rc != AWS_OP_ERR) {
                     snprintf(det, sizeof(det), "callback %d returned an error, aws_xml_parse returned %d", E_n - 1, rc);
-                    report(tc, "abort-ignored", E_n - 1, rc, err, det);
+                    report_c(tc, "abort-ignored", E_n == 1 ? "root-callback" : "nested-callback", E_n - 1, rc, err, det);
                 } else if (err != CB_ERROR) {
                     snprintf(det, sizeof(det), "callback raised %s, aws_last_error() after the parse is %d %s", ename(CB_ERROR), err, ename(err));
-                    report(tc, "abort-error-replaced", E_n - 1, rc, err, det);
+                    report_c(tc, "abort-error-replaced", E_n == 1 ? "root-callback" : "nested-callback", E_n - 1, rc, err, det);
                 }
                 break;
             case O_INVALID:
@@ -589,14 +596,10 @@ static void run_case(const struct tcase *tc, int want_sample) {
                     report(tc, rc ? "spurious-reject" : "missing-element", last, rc, err, det);
                 } else if (rc != AWS_OP_ERR) {
                     snprintf(det, sizeof(det), "document must be rejected (%s) but aws_xml_parse returned success", ref_reason);
-                    char cl[64];
-                    snprintf(cl, sizeof(cl), "%s-accepted", ref_reason);
-                    report(tc, cl, E_n ? E_n - 1 : -1, rc, err, det);
+                    report_c(tc, "limit-accepted", ref_reason, E_n ? E_n - 1 : -1, rc, err, det);
                 } else if (err != AWS_ERROR_INVALID_XML) {
                     snprintf(det, sizeof(det), "rejected (%s) with error %d %s instead of AWS_ERROR_INVALID_XML", ref_reason, err, ename(err));
-                    char cl[64];
-                    snprintf(cl, sizeof(cl), "%s-wrong-error", ref_reason);
-                    report(tc, cl, E_n ? E_n - 1 : -1, rc, err, det);
+                    report_c(tc, "limit-wrong-error", ref_reason, E_n ? E_n - 1 : -1, rc, err, det);
                 }
                 break;
             default: /* O_FAIL_LOOSE: unclosed element descended into: the parse must fail, by the parser or by an abort */
@@ -604,10 +607,10 @@ static void run_case(const struct tcase *tc, int want_sample) {
                     snprintf(det, sizeof(det), "parse ended (rc=%d err=%d) after %d callbacks before the unclosed element (callback %d) was reported", rc, err, L_n, ncmp - 1);
                     report(tc, rc ? "spurious-reject" : "missing-element", last, rc, err, det);
                 } else if (rc != AWS_OP_ERR) {
-                    report(tc, "unclosed-accepted", ncmp - 1, rc, err, "an element without end tag was descended into and the parse succeeded");
+                    report_c(tc, "limit-accepted", "unclosed-descended", ncmp - 1, rc, err, "an element without end tag was descended into and the parse succeeded");
                 } else if (!(err == AWS_ERROR_INVALID_XML || (aborts_executed && err == CB_ERROR))) {
                     snprintf(det, sizeof(det), "unclosed document rejected with error %d %s", err, ename(err));
-                    report(tc, "unclosed-wrong-error", ncmp - 1, rc, err, det);
+                    report_c(tc, "limit-wrong-error", "unclosed-descended", ncmp - 1, rc, err, det);
                 }
                 break;
         }
